@@ -272,6 +272,9 @@ func checkCommentChain(p *Program, r *Report, pl *Policy) {
 // contextReads collects the field paths of the context parameter that fn (and
 // the package functions it hands the context or its sub-structs to) reads.
 func contextReads(p *Program, fn *ssa.Function, paramIdx int, prefix string, out map[string]bool, depth int) {
+	if depth < 0 {
+		// negative depth: do not follow calls (depth -1 = this function only)
+	}
 	if depth > 6 || fn == nil || fn.Blocks == nil || paramIdx >= len(fn.Params) {
 		return
 	}
@@ -313,13 +316,18 @@ func contextReads(p *Program, fn *ssa.Function, paramIdx int, prefix string, out
 					if a != v {
 						continue
 					}
-					if f != nil && f.Pkg == fn.Pkg && f.Blocks != nil {
+					if f != nil && f.Pkg == fn.Pkg && f.Blocks != nil && depth >= 0 {
 						contextReads(p, f, i, path, out, depth+1)
+					} else if f != nil && f.Pkg == fn.Pkg && depth < 0 {
+						// calls are not followed: passing the whole struct on is not a use of its fields
 					} else if path != "" {
 						out[path] = true
 					}
 				}
 			case *ssa.Store:
+				if x.Addr == v && path != "" {
+					out[path] = true // assigned
+				}
 				if x.Val == v && x.Addr != nil {
 					// copied into another local: follow it
 					if al, ok := x.Addr.(*ssa.Alloc); ok {
